@@ -61,6 +61,12 @@ CHECKS = [
   "technique": "scenario property-based testing of messages_limit (bound, self-stop, untouched remainder) and of the run-on-enqueue testing modifier",
   "text": _WORKER + " Liveness is decided as 'returns within a 45 s virtual horizon'.",
   "note": _MODEL + _SRV},
+ {"property_id": "C14", "level": "exploration", "design_ref": "DESIGN.md §4 C14",
+  "technique": "stateful property-based testing with concurrent consume launches over several clients and generated latencies; holder-map oracle; multi-worker exactly-once check",
+  "text": "Interleavings of several consumers/clients are permuted by generated per-round-trip latencies on a deterministic loop; the holder "
+          "map is maintained from hand-over/return events and every history ends by draining all consumers. Worker level: 2-3 workers on one "
+          "queue, each succeeding job executed exactly once. Statistical over histories and latency vectors.",
+  "note": _MODEL + _SRV + " Open known finding D24 (Redis maintenance reclaims messages of live consumers after the execution timeout) is excluded by signature."},
  {"property_id": "C19", "level": "exploration", "design_ref": "DESIGN.md §4 C19",
   "technique": "property-based testing (Hypothesis) of pure functions against arithmetic oracles under a pinned clock",
   "text": "Generated search (tens of thousands of inputs per run, boundary classes constructed on purpose: exact period multiples ±1µs, "
